@@ -39,7 +39,12 @@ fn model_outcome(i: &[u8]) -> MOut {
     MOut::Ok { used: need }
 }
 
-fn model_rwh<'i>(i: &'i [u8], _hdr: &TlsRecordHeader) -> IResult<&'i [u8], Vec<TlsMessage<'i>>> {
+fn model_rwh<'i>(i: &'i [u8], hdr: &TlsRecordHeader) -> IResult<&'i [u8], Vec<TlsMessage<'i>>> {
+    // the one-shot parser is always handed a header whose length is the payload length (that is what
+    // parse_tls_plaintext does); a defragmenter that passes anything else is not "parsing the concatenation"
+    if hdr.len as usize != i.len() {
+        return Err(Err::Error(Error::new(i, ErrorKind::Verify)));
+    }
     // no heap allocation: the message is identified by the remainder (= input minus the bytes it used)
     match model_outcome(i) {
         MOut::CutShort => Err(Err::Error(Error::new(i, ErrorKind::Complete))),
